@@ -199,6 +199,13 @@ def task_steps(tier, seed, arg):
     evaluations = _step_evaluations((arg or {}).get("modules") if isinstance(arg, dict) else None)
     results = _run_steps(evaluations, canon)
     outs = dict((e, _step_outcome(e, r, canon)) for e, r in zip(evaluations, results))
+    # arg {"clauses": ["t"]} keeps only some of the three clauses (private table "t", public table "pub", second private table "t2"):
+    # a property about the values a table serves looks at the private table; isolation of the public table is C10's own business
+    keep = set((arg or {}).get("clauses") or ("pub", "t", "t2")) if isinstance(arg, dict) else {"pub", "t", "t2"}
+    for o in outs.values():
+        for c in ("pub", "t", "t2"):
+            if c not in keep:
+                o[c] = {}
     violations, notes, samples = [], [], []
     subsumed, raised, distinct = [], [], 0
     for e in evaluations:
